@@ -456,8 +456,12 @@ class HTTPConnectionPool(ConnectionPool, RequestMethods):
         """
         self.num_requests += 1
 
-        timeout_obj = self._get_timeout(timeout)
-        timeout_obj.start_connect()
+        if isinstance(timeout, Timeout) and timeout._start_connect is not None:
+            # urlopen() started the clock before it set up the tunnel.
+            timeout_obj = timeout
+        else:
+            timeout_obj = self._get_timeout(timeout)
+            timeout_obj.start_connect()
         conn.timeout = Timeout.resolve_default_timeout(timeout_obj.connect_timeout)
 
         try:
@@ -774,6 +778,9 @@ class HTTPConnectionPool(ConnectionPool, RequestMethods):
 
             # Is this a closed/new connection that requires CONNECT tunnelling?
             if self.proxy is not None and http_tunnel_required and conn.is_closed:
+                # Connecting to the proxy and setting up the tunnel is part of
+                # the connect phase: its duration counts against ``total``.
+                timeout_obj.start_connect()
                 try:
                     self._prepare_proxy(conn)
                 except (BaseSSLError, OSError, SocketTimeout) as e:
